@@ -212,18 +212,35 @@ func execLinNice(a []Tok) string {
 	return niceOut(s, tickOpts(a), func() (float64, float64) { return s.Min, s.Max })
 }
 
+// logPast: the Log scale was used before with another base and/or another domain, then its
+// exported fields were assigned the case's values.
+func logPast(s *scale.Log, a []Tok) {
+	mn, mx, base := a[0].F(), a[1].F(), a[2].Int()
+	if !hasPast(mn) {
+		return
+	}
+	switch math.Float64bits(mx) % 3 {
+	case 0: // same domain, other base
+		s.Base = []int{2, 10, 16, 3}[int(math.Float64bits(mn)>>4)%4]
+	case 1: // other domain, same base
+		s.Min, s.Max = mn/1e6, mx*1e9
+	default: // both
+		s.Min, s.Max = mn/1e6, mx*1e9
+		s.Base = base + 1
+	}
+	withPast(s, tickOpts(a))
+	s.Min, s.Max, s.Base = mn, mx, base
+}
+
 func execLogTicks(a []Tok) string {
 	s := scale.Log{Min: a[0].F(), Max: a[1].F(), Base: a[2].Int()}
-	if hasPast(s.Min) {
-		s.Min, s.Max = s.Min/1e6, s.Max*1e9
-		withPast(&s, tickOpts(a))
-		s.Min, s.Max = a[0].F(), a[1].F()
-	}
+	logPast(&s, a)
 	return ticksOut(&s, &s, tickOpts(a), rand.Intn(7)-3)
 }
 
 func execLogNice(a []Tok) string {
 	s := &scale.Log{Min: a[0].F(), Max: a[1].F(), Base: a[2].Int()}
+	logPast(s, a)
 	return niceOut(s, tickOpts(a), func() (float64, float64) { return s.Min, s.Max })
 }
 
@@ -293,6 +310,17 @@ func scTok(rng *rand.Rand, log bool) (string, float64, float64) {
 }
 
 func randX(rng *rand.Rand, a, b float64, log bool) float64 {
+	if rng.Intn(8) == 0 { // just inside / outside an end of the domain, by a tiny fraction of its width
+		f := math.Pow(10, -float64(5+rng.Intn(11))) * float64(rng.Intn(3)-1)
+		e, o := a, b
+		if rng.Intn(2) == 0 {
+			e, o = b, a
+		}
+		if log && e != 0 {
+			return e * math.Pow(math.Abs(o/e), f)
+		}
+		return e + (o-e)*f
+	}
 	if log {
 		switch rng.Intn(6) {
 		case 0:
